@@ -250,6 +250,76 @@ def _chunk_events(args):
     return ev
 
 
+
+def _nested_chunk_events(args):
+    """A location that lives one or two coordinate systems BELOW a sequence chunk (child -> region [-> sub-region] ->
+    chunk A -> chromosome) is moved with the public static liftover_location_to_seq_chunk_parent onto another chunk B
+    or onto the whole chromosome: the answer must be the base-by-base composition of every level, restricted to B."""
+    seed, n, G = args
+    setup_repo_import()
+    from inscripta.biocantor.gene.interval import AbstractInterval
+    from inscripta.biocantor.io.parser import seq_chunk_to_parent, seq_to_parent
+    from inscripta.biocantor.parent import Parent
+    from inscripta.biocantor.sequence import Sequence
+    from inscripta.biocantor.sequence.alphabet import Alphabet
+
+    rnd = random.Random(seed)
+    ev = []
+    for _ in range(n):
+        root = "".join(rnd.choice("ACGT") for _ in range(G))
+        a_s = rnd.randrange(0, G - 6)
+        a_e = rnd.randrange(a_s + 6, G + 1)
+        try:
+            chunk_a = seq_chunk_to_parent(root[a_s:a_e], "chr", a_s, a_e)
+        except Exception:
+            continue
+        depth = rnd.choice([1, 1, 2])
+        Ps, seqs = [], [root[a_s:a_e]]
+        upper_seq, upper_id = chunk_a.sequence, chunk_a.id
+        ok = True
+        for j in range(depth):
+            if len(seqs[-1]) < 2:
+                ok = False
+                break
+            P = _rand_clean_loc(rnd, len(seqs[-1]), 2)
+            data = extract_py(P[0], P[1], seqs[-1])
+            try:
+                lvl = Sequence(data, Alphabet.NT_STRICT, id="region%d" % j, type="region%d" % j,
+                               parent=Parent(id=upper_id, location=E.make_loc(P[0], P[1]), sequence=upper_seq))
+            except Exception:
+                ok = False
+                break
+            Ps.append(P)
+            seqs.append(data)
+            upper_seq, upper_id = lvl, "region%d" % j
+        if not ok or len(seqs[-1]) < 1:
+            continue
+        child = _rand_clean_loc(rnd, len(seqs[-1]), 2)
+        try:
+            c = E.make_loc(child[0], child[1], upper_seq)
+        except Exception:
+            continue
+        if rnd.random() < 0.5:
+            ws, we, kind = 0, G, "chromosome"
+            target = seq_to_parent(root, seq_id="chr")
+        else:
+            ws = rnd.randrange(0, G - 1)
+            we = rnd.randrange(ws + 1, G + 1)
+            kind = "chunk"
+            target = seq_chunk_to_parent(root[ws:we], "chr", ws, we)
+
+        def enc(r):
+            try:
+                s2 = list(str(r.extract_sequence()))
+            except Exception as ex2:
+                s2 = "!" + type(ex2).__name__
+            return (E.loc(r), E.pid(r), s2)
+
+        o = E.outcome(lambda: AbstractInterval.liftover_location_to_seq_chunk_parent(c, target), enc)
+        ev.append(["nchunk", list(root), a_s, a_e, [list(p) for p in Ps], list(child), ws, we, o, kind])
+    return ev
+
+
 def _key(ev, clause):
     if clause == "lift:selfoverlap-order":
         return "loc:selfoverlap-order"
@@ -272,13 +342,17 @@ def run(chk):
         locs = E.enum_locs(5, 3) + rnd.sample(locs, 1000)
     parts = pmap(_chunk_events, [(locs[i::64], G if not quick else 8, chk.seed * 409 + i) for i in range(64)])
     evs += [e for p in parts for e in p]
+    parts = pmap(_nested_chunk_events, [(chk.seed * 419 + i, 60 if quick else 1500, rnd.choice([12, 16, 20])) for i in range(32)])
+    evs += [e for p in parts for e in p]
     chk.validate("C04Trace", evs, shard=1500, label="lift", keyfn=_key)
     chk.nontrivial = len({str(e[1:7]) for e in evs})
     chk.extra["constants"] = {"hierarchies": sum(1 for e in evs if e[0] == "lift"),
-                              "chunk_round_trips": sum(1 for e in evs if e[0] == "chunk"), "max_depth": 4}
+                              "chunk_round_trips": sum(1 for e in evs if e[0] == "chunk"),
+                              "nested_below_chunk": sum(1 for e in evs if e[0] == "nchunk"), "max_depth": 4}
     chk.trusted += ["TLC", "Lift.tla/Loc.tla Sem layer", "encode.py", "harness extract_py (builds level sequences only)"]
     return chk.finish("random hierarchies of depth 0..4 (placements = 1..3-block locations on either strand, adjacent "
                       "blocks, a share with self-overlapping placements; repeated sequence types; with/without "
                       "sequences): lift by type to every type, by sequence identity to every level, one-step lift, "
                       "ancestor predicates; every location of Locs(5,3)+sample of Locs(8,3) onto 6 chunk windows, back, "
-                      "and onto a second chunk; distinct = distinct (hierarchy, child) / (location, window)")
+                      "and onto a second chunk; locations one or two coordinate systems below a chunk moved onto another chunk / "
+                      "the chromosome with the public static lift; distinct = distinct (hierarchy, child) / (location, window)")
